@@ -10,7 +10,7 @@ class C02(OptCheck):
     technique = "Coq proof: parse (render items tail) = assignment items tail for every well-formed item list (round trip through explain) + differential run over random renderings of intended assignments"
     level_text = 'Theorem C02_render_parse_roundtrip: for ALL declarations, item lists satisfying the boolean wf_items and tails, parse(render items tail) = assignment items tail, values being arbitrary byte strings; both lexical round trips (render_explain, explain_render); K1 refutation witness proved. Tied by differential runs over random renderings of intended assignments + typed as<long> stream'
     level_note = "trusted: Coq kernel; ExtrOcamlBasic extraction + OCaml; the differential harness (generators, C++ driver through the public API under ASan/UBSan, canonical observation lines); gen/tr_vocab.py for C11. Theorem hypotheses: wf_decl (names non-empty, no '=', not starting with '-', pairwise distinct; letters neither '-' nor '='), no_clash (known finding K1: no toggle foo next to anything called no-foo), aligned state (every reachable state is: C14_reachable_aligned). Modelled, not verified: std::map name order, std::multiset::count on letters, std::getline at ';', getenv, object lifetimes, int overflow of counts (model uses Z), operator>> for typed access (exercised with as<long> on decimal texts only). The tie model=code is bounded-exhaustive + sampled, not proved"
-    rule = ("core stream + rendering stream: draw a declaration (12 shapes + random ones), an intended assignment (value per option from a "
+    rule = ("core stream (exhaustive short vectors over declaration-relative tokens for 12 declaration shapes; random vectors, random declarations and environments; 'steps' histories on ONE long-lived parser object — several calls, environment changes, further declarations, move construction, move assignment from a differently declared parser — each call also made on a freshly built identical parser; declarations spread over named groups in a hash-derived order) + rendering stream: draw a declaration (12 shapes + random ones), an intended assignment (value per option from a "
             "14-value alphabet incl. empty, '=', blanks, LF, non-ASCII, option-like strings; 0-3 values per multi-option; 0-3 occurrences or a "
             "negation per toggle; 0-3 positionals inline or after --), choose long/short/= form per occurrence, bundle toggle letters, permute; "
             "typed stream: decimal texts read back with as<long>; non-trivial = at least one token; distinct = distinct case line")
